@@ -388,7 +388,9 @@ class FiniteAutomaton:
 
         """
         symbol = to_symbol(symbol)
-        self._input_symbols.add(symbol)
+        # Epsilon is not an input symbol
+        if symbol != Epsilon():
+            self._input_symbols.add(symbol)
 
     def to_fst(self) -> "FST":
         """ Turns the finite automaton into a finite state transducer
